@@ -117,14 +117,19 @@ func HarnessC05() {
 	p := zzC05Plan{aImpB: zz.Choice(2) == 1, aImpC: zz.Choice(2) == 1, bImpC: zz.Choice(2) == 1, ref: zz.Choice(3), bName: zz.Choice(2), cName: zz.Choice(2)}
 	orders := [][]string{{"a.proto", "b.proto", "c.proto"}, {"c.proto", "b.proto", "a.proto"}, {"b.proto", "a.proto", "c.proto"}, {"c.proto", "a.proto", "b.proto"}}
 	zzOverride = false
+	variant := 0
 	if zz.Tier() == 1 {
-		p.cNoPkg = zz.Choice(2) == 1
-		zzOverride = zz.Choice(2) == 1 // the resolver overrides descriptor.proto (implicit dependency of every file)
+		// thorough: the base configuration with a larger delay bound, plus two more
+		// configurations (c.proto without package; overridden descriptor.proto, an implicit
+		// dependency of every file) at the quick bound
+		variant = zz.Choice(3)
+		p.cNoPkg = variant == 1
+		zzOverride = variant == 2
 	}
 	ord := orders[zz.Choice(len(orders))]
 	par := 1 + zz.Choice(2)
 	pre := 1
-	if zz.Tier() == 1 {
+	if zz.Tier() == 1 && variant == 0 {
 		pre = 2
 	}
 	zz.Schedule(0)
